@@ -13,6 +13,7 @@ CONSTANTS Chunks,
           ValidateIndices, \* BOOLEAN: validate_shards rejects manifests with repeated / zero share indices
           GuardCombine,   \* BOOLEAN: receive_chunk / fetch_chunk turn a failing key reconstruction into a refusal
           GuardControl,   \* BOOLEAN: the control handler turns handler exceptions into an error response
+          NoSigpipe,      \* BOOLEAN: writes to a socket whose remote end has gone away fail with an error (MSG_NOSIGNAL) instead of raising SIGPIPE
           MaxHist
 \* manifest classes an adversary can put into a (validly signed) ANNOUNCE or hand to the control plane
 MClasses == {"ok", "dupidx", "zeroidx", "thr0", "thrbig", "expired", "idmismatch", "assignabsent", "garbage", "empty"}
@@ -24,7 +25,7 @@ VARIABLES cached,   \* cached[c] \in MClasses \cup {"none"} : manifest cached (a
 vars == <<cached, held, obs, alive, hist>>
 Init == cached = [c \in Chunks |-> "none"] /\ held = [c \in Chunks |-> FALSE] /\ obs = "init" /\ alive = TRUE /\ hist = <<>>
 
-Out(o) == obs' = o /\ alive' = (alive /\ o # "threw")
+Out(o) == obs' = o /\ alive' = (alive /\ o \notin {"threw", "killed"})
 \* validly signed ANNOUNCE carrying a manifest of class m for chunk c
 Announce(c, m) == /\ cached' = IF Admissible(m) THEN [cached EXCEPT ![c] = m] ELSE cached
                   /\ Out(IF Admissible(m) THEN "handled" ELSE "ignored") /\ UNCHANGED held
@@ -47,22 +48,26 @@ CtlFetch(c, m) ==
     /\ UNCHANGED held
 \* control FETCH with an empty OUT: std::filesystem::absolute("") throws filesystem_error
 CtlFetchEmptyOut == Out(IF GuardControl THEN "error" ELSE "threw") /\ UNCHANGED <<cached, held>>
+\* a control client resets the connection after asking for a streamed response / a peer closes before the
+\* node answers its REQUEST: the daemon's next write hits a dead socket
+Abort == Out(IF NoSigpipe THEN "ignored" ELSE "killed") /\ UNCHANGED <<cached, held>>
 \* malformed control requests (bad PAYLOAD-LENGTH, over-long line, NULs, no blank line ...) are parse errors
 CtlMalformed == Out("error") /\ UNCHANGED <<cached, held>>
 
 Acts == {[op |-> "announce", c |-> c, m |-> m] : c \in Chunks, m \in MClasses}
    \cup {[op |-> "chunk", c |-> c] : c \in Chunks} \cup {[op |-> "store", c |-> c] : c \in Chunks}
    \cup {[op |-> "ctlfetch", c |-> c, m |-> m] : c \in Chunks, m \in {"ok", "dupidx", "zeroidx", "garbage", "expired"}}
-   \cup {[op |-> "other"], [op |-> "ctlemptyout"], [op |-> "ctlmalformed"]}
+   \cup {[op |-> "other"], [op |-> "ctlemptyout"], [op |-> "ctlmalformed"], [op |-> "ctlabort"], [op |-> "peerabort"]}
 Do(a) == CASE a.op = "announce" -> Announce(a.c, a.m) [] a.op = "chunk" -> ChunkMsg(a.c) [] a.op = "store" -> Store(a.c)
            [] a.op = "ctlfetch" -> CtlFetch(a.c, a.m) [] a.op = "other" -> Other
            [] a.op = "ctlemptyout" -> CtlFetchEmptyOut [] a.op = "ctlmalformed" -> CtlMalformed
+           [] a.op \in {"ctlabort", "peerabort"} -> Abort
 Next == alive /\ \E a \in Acts : Do(a) /\ hist' = Append(hist, a)
 Spec == Init /\ [][Next]_vars
 View == <<cached, held, obs, alive>>
 Bound == Len(hist) <= MaxHist
 \* [C35] no delivery ends in an escaping exception; the process stays alive
-C35_NoThrow == obs # "threw" /\ alive
+C35_NoThrow == obs \notin {"threw", "killed"} /\ alive
 Reach_PoisonThenChunk == ~(\E i \in 1..Len(hist) : hist[i].op = "chunk" /\ i > 1 /\ hist[i-1].op = "announce" /\ hist[i-1].m = "dupidx" /\ hist[i-1].c = hist[i].c)
 Reach_PoisonHeldThenFetch == ~(\E c \in Chunks : held[c] /\ Unusable(cached[c]))
 =============================================================================
